@@ -606,21 +606,35 @@ class CommunicationGroupContext(TwoPhaseWithBarrierContext):
                     return str_a[:i]
             return "EmptyName"
 
+        def _peers_of(event: TraceEvent) -> set[int]:
+            # the single peer of a send/receive part and the peer list of a multicast (BcList) part
+            peers = set()
+            args = event["args"] if "args" in event else {}
+            if "Peer" in args:
+                peers.add(int(args["Peer"]))
+            if "Peers" in args:
+                listed = args["Peers"]
+                if isinstance(listed, str):
+                    listed = listed.split(',')
+                elif not isinstance(listed, (list, tuple, set)):
+                    listed = [listed]
+                peers.update(int(p) for p in listed if str(p).strip() != "")
+            return peers
+
         if sequence not in self.queues:
             self.queues[sequence] = {
                 "count": 1,
                 "start_ts": event["ts"],
                 "end_ts": event["ts"] + event["dur"],
                 "name": event["name"],
-                "peers": set([int(event["args"]["Peer"])]) if "args" in event and "Peer" in event["args"] else set()
+                "peers": _peers_of(event)
             }
         else:
             self.queues[sequence]["count"] += 1
             self.queues[sequence]["start_ts"] = min(self.queues[sequence]["start_ts"], event["ts"])
             self.queues[sequence]["end_ts"] = max(self.queues[sequence]["end_ts"], event["ts"] + event["dur"])
             self.queues[sequence]["name"] = _longest_name_overlap(self.queues[sequence]["name"], event["name"])
-            if "args" in event and "Peer" in event["args"]:
-                self.queues[sequence]["peers"].add(int(event["args"]["Peer"]))
+            self.queues[sequence]["peers"].update(_peers_of(event))
 
     def apply(self, event: TraceEvent, sequence: int) -> list[TraceEvent]:
         self.queues[sequence]["count"] -= 1
